@@ -120,8 +120,26 @@ def converse(rng, n, wd, idx, mode=None):
             nodes = rng.sample([1, 2, 7, 200, 254], rng.randint(1, 3))
             for nd in nodes:
                 gw.logic(f"{nd};255;0;0;17;{ver}\n")
+        old = _SHARED.get("last") if (reuse and not retarget) else None
         _SHARED.update(gw=gw, nodes=nodes, fw=(ft, fv))
-        gw.update_fw(nodes if len(nodes) > 1 else nodes[0], ft, fv, path)
+        if len(nodes) > 1 and idx % 2:
+            # the image is loaded once, for the first node; the others are scheduled by type and version alone
+            gw.update_fw(nodes[0], ft, fv, path)
+            gw.update_fw(nodes[1:], ft, fv)
+        else:
+            gw.update_fw(nodes if len(nodes) > 1 else nodes[0], ft, fv, path)
+        if old is not None and old["blocks"] > 0:
+            # the image under this id was just replaced while the nodes were in the middle of the previous one: what a
+            # node is served before it has asked for the config again must still fit what it WAS told (or stay unanswered)
+            rec.update(hasprev=True, pimg=old["img"], pblocks=old["blocks"])
+            for bi in [0, old["blocks"] - 1, rng.randrange(old["blocks"])]:
+                nd = rng.choice(nodes)
+                r = gw.logic(f"{nd};255;4;0;2;{hexwords(old['ft'], old['fv'], bi)}\n")
+                if r is None:
+                    continue
+                h = r.rstrip("\n").split(";")
+                w, data = words(h[5], 3)
+                rec["pblks"].append([old["ft"], old["fv"], bi, w[0], w[1], w[2], data])
         for nd in nodes:
             r = gw.logic(f"{nd};255;4;0;0;{hexwords(ft, rng.randrange(65536), 7, 8, 9)}\n")
             if r is None:
@@ -142,6 +160,9 @@ def converse(rng, n, wd, idx, mode=None):
             else:
                 order = [0, 1, blocks - 1, blocks - 2, blocks // 2] + [rng.randrange(blocks) for _ in range(45)]
             rng.shuffle(order)
+            if mode == "fresh" and idx % 6 == 0:
+                order = []          # the nodes have been told the config but have not fetched a block yet when the next
+                                    # conversation replaces the image
             for bi in order:
                 nd = rng.choice(nodes)
                 r = gw.logic(f"{nd};255;4;{rng.choice([0, 0, 1])};2;{hexwords(ft, fv, bi)}\n")
